@@ -62,42 +62,89 @@ def check_size_verifiers(idx: Index, rep: Report) -> None:
     if sz is None:
         raise AnalysisError(f"{g.fq}: loop pairing each size with its definition not recognised")
     opt_is_var = idx.is_subclass(idx.cls(OPS, "OptionalDef"), "VariadicDef")
+    # case analysis: definition kind x size class, through the path summaries of the loop body.  The atoms are
+    # isinstance tests on the definition and comparisons of the size with constants, so the size classes induced by
+    # those constants are exact.
+    from ..paths import enum_paths
 
-    def facts_of(rs):
-        out = {}
-        for t, pol in guard_facts(g.node, rs):
-            out[unparse(t)] = pol
-        return out
+    body_paths = enum_paths(ast.Module(body=kloop.body, type_ignores=[]))
+    consts = {0, 1}
+    for pth in body_paths:
+        for t_, _ in pth.rfacts:
+            for x in ast.walk(t_):
+                if isinstance(x, ast.Constant) and isinstance(x.value, int) and not isinstance(x.value, bool):
+                    consts.add(x.value)
+    reps = sorted({c + d for c in consts for d in (-1, 0, 1)})
+    kinds = {"single": {"OptionalDef": False, "VariadicDef": False}, "optional": {"OptionalDef": True, "VariadicDef": True if opt_is_var else False}, "variadic": {"OptionalDef": False, "VariadicDef": True}}
 
-    opt_ok = single_ok = False
-    for rs in [n for n in walk_local(kloop) if isinstance(n, ast.Raise)]:
-        fs = facts_of(rs)
-        is_opt = fs.get(f"isinstance({dn}, OptionalDef)")
-        is_var = fs.get(f"isinstance({dn}, VariadicDef)")
-        if is_opt is True and not (opt_is_var and is_var is False):
-            if fs.get(f"{sz} not in (0, 1)") is True or fs.get(f"{sz} in (0, 1)") is False or fs.get(f"{sz} > 1") is True:
-                opt_ok = True
-        if is_var is False and is_opt is not True:
-            if fs.get(f"{sz} != 1") is True or fs.get(f"{sz} == 1") is False:
-                single_ok = True
-    if opt_ok and single_ok:
-        r.ok(g.fq + ":kind", f"{g.loc} optional -> 0/1, single -> 1")
+    def ev(atom: ast.AST, kind: str, val: int):
+        if isinstance(atom, ast.BoolOp):
+            vs = [ev(v_, kind, val) for v_ in atom.values]
+            if any(v_ is None for v_ in vs):
+                return None
+            return all(vs) if isinstance(atom.op, ast.And) else any(vs)
+        if isinstance(atom, ast.UnaryOp) and isinstance(atom.op, ast.Not):
+            v_ = ev(atom.operand, kind, val)
+            return None if v_ is None else not v_
+        if isinstance(atom, ast.Call) and unparse(atom.func) == "isinstance" and len(atom.args) == 2 and unparse(atom.args[0]) == dn:
+            cls_ = atom.args[1]
+            names = [unparse(e_) for e_ in (cls_.elts if isinstance(cls_, ast.Tuple) else [cls_])]
+            if all(n_ in kinds[kind] for n_ in names):
+                return any(kinds[kind][n_] for n_ in names)
+            return None
+        if isinstance(atom, ast.Compare) and all(isinstance(x, (ast.Name, ast.Constant, ast.Tuple, ast.List, ast.Set, ast.UnaryOp, ast.Load, ast.USub)) or isinstance(x, (ast.cmpop, ast.Compare)) for x in ast.walk(atom)) and {x.id for x in ast.walk(atom) if isinstance(x, ast.Name)} <= {sz}:
+            try:
+                return bool(eval(compile(ast.Expression(body=ast.fix_missing_locations(atom)), "<atom>", "eval"), {"__builtins__": {}}, {sz: val}))  # constant arithmetic comparison only
+            except Exception:
+                return None
+        return None
+
+    table = {}
+    unknown_atoms = set()
+    for kind in kinds:
+        for val in reps:
+            outs = set()
+            for pth in body_paths:
+                ok_path = True
+                for t_, pol in pth.rfacts:
+                    v_ = ev(t_, kind, val)
+                    if v_ is None:
+                        unknown_atoms.add(unparse(t_))
+                        continue
+                    if v_ != pol:
+                        ok_path = False
+                        break
+                if ok_path:
+                    outs.add("reject" if pth.end == "raise" or any(isinstance(e_, ast.Expr) and isinstance(e_.value, ast.Call) and call_attr(e_.value) in ("raise_error",) for e_ in pth.effects) else "accept")
+            table[(kind, val)] = outs
+    if unknown_atoms:
+        raise AnalysisError(f"{g.fq}: conditions of the size/kind loop not understood: {sorted(unknown_atoms)[:3]}")
+
+    def expected(kind: str, val: int) -> str:
+        if kind == "single":
+            return "accept" if val == 1 else "reject"
+        if kind == "optional":
+            return "accept" if val in (0, 1) else "reject"
+        return "accept" if val >= 0 else "reject"
+
+    wrong_kind = [(k_, v_) for (k_, v_), o in table.items() if v_ >= 0 and o != {expected(k_, v_)}]
+    wrong_sign = [(k_, v_) for (k_, v_), o in table.items() if v_ < 0 and k_ != "single" and o != {"reject"}] + [(k_, v_) for (k_, v_), o in table.items() if v_ < 0 and k_ == "single" and o != {"reject"}]
+    if not wrong_kind:
+        r.ok(g.fq + ":kind", f"{g.loc} optional -> 0/1, single -> 1 (case analysis over {len(table)} kind x size classes)")
     else:
-        missing = [k for k, v in (("optional definitions (0 or 1)", opt_ok), ("single definitions (exactly 1)", single_ok)) if not v]
-        r.fail(g.fq + ":kind", Finding("C10.R1", g.fq, "kind-not-checked", f"sizes are not checked against the kind of each definition (optional: 0 or 1, single: 1): no reachable rejection for {', '.join(missing)}" + (" — OptionalDef is a subclass of VariadicDef, so a test placed after `isinstance(d, VariadicDef)` was excluded never fires" if not opt_ok else ""), g.loc))
+        r.fail(g.fq + ":kind", Finding("C10.R1", g.fq, "kind-not-checked", f"sizes are not checked against the kind of each definition (optional: 0 or 1, single: 1): {', '.join(f'a {k_} definition with size {v_} is ' + '/'.join(sorted(table[(k_, v_)])) + 'ed' for k_, v_ in wrong_kind[:4])}" + (" — OptionalDef is a subclass of VariadicDef, so a test placed after `isinstance(d, VariadicDef)` was excluded never fires" if any(k_ == "optional" for k_, _ in wrong_kind) else ""), g.loc))
     # (c) the sum of the sizes equals the length of the verified list
     consumes = any(call_attr(c) == "get_op_constructs" for c in calls_in(g.node)) and re.search(rf"sum\({sizes}\)", t)
     if consumes:
         r.ok(g.fq + ":sum", f"{g.loc} sum of sizes compared with the list length")
     else:
         r.fail(g.fq + ":sum", Finding("C10.R1", g.fq, "sum-not-checked", f"verify_variadic_attr_size never compares sum({sizes}) with len(get_op_constructs(op, construct)): `operandSegmentSizes = [0, 0, 1]` over three operands verifies, and `[2, 2, 1]` fails later with IndexError in an accessor", g.loc))
-    # (d) non-negative entries: a rejection inside the pairing loop (or over the whole list) for a negative size
-    neg = any(facts_of(rs).get(f"{sz} < 0") is True or facts_of(rs).get(f"{sz} >= 0") is False or facts_of(rs).get(f"0 > {sz}") is True for rs in [n for n in walk_local(kloop) if isinstance(n, ast.Raise)])
-    neg = neg or bool(re.search(r"min\(" + re.escape(sizes) + r"\) < 0|any\(\(?\w+ < 0 for", t))
-    if neg:
-        r.ok(g.fq + ":sign", f"{g.loc} negative sizes rejected")
+    # (d) non-negative entries: every negative size is rejected, whatever the kind of its definition
+    whole = bool(re.search(r"min\(" + re.escape(sizes) + r"\) < 0|any\(\(?\w+ < 0 for", t))
+    if not wrong_sign or whole:
+        r.ok(g.fq + ":sign", f"{g.loc} negative sizes rejected for every kind of definition")
     else:
-        r.fail(g.fq + ":sign", Finding("C10.R1", g.fq, "negative-not-checked", "a negative size for a variadic segment is accepted (`[-1, 3, 1]` over three operands verifies)", g.loc))
+        r.fail(g.fq + ":sign", Finding("C10.R1", g.fq, "negative-not-checked", f"a negative size is accepted: {', '.join(f'{k_} definition with size {v_}' for k_, v_ in wrong_sign[:3])} (`[-1, 3, 1]` over three operands verifies when the other sizes compensate)", g.loc))
 
 
 def check_builder(idx: Index, rep: Report) -> None:
@@ -205,14 +252,76 @@ def check_properties(idx: Index, rep: Report) -> None:
     r = rep.rule("C10.R4", "OpDef.verify checks every declared property / attribute and rejects undeclared properties; all four construct kinds are size-verified", floor=4)
     f = idx.func(OPS, "OpDef.verify")
     t = "\n".join(unparse(s_) for s_ in f.node.body)
-    checks = {
-        "declared-properties": "for prop_name, attr_def in self.properties.items():" in t and "attr_def.constr.verify(op.properties[prop_name], constraint_context)" in t and "if isinstance(attr_def, OptPropertyDef):\n            continue" in t,
-        "undeclared-properties": "for prop_name in op.properties.keys():\n    if prop_name not in self.properties:\n        raise VerifyException" in t,
-        "declared-attributes": "for attr_name, attr_def in self.attributes.items():" in t and "attr_def.constr.verify(op.attributes[attr_name], constraint_context)" in t,
-        "constructs": all(x in t for x in ("irdl_op_verify_arg_list(op, self, VarIRConstruct.OPERAND, constraint_context)", "irdl_op_verify_arg_list(op, self, VarIRConstruct.RESULT, constraint_context)", "irdl_op_verify_regions(op, self, constraint_context)", "verify_variadic_size(op, self, VarIRConstruct.SUCCESSOR)")),
-    }
-    for k, ok in checks.items():
-        (r.ok(f.fq + ":" + k, f"{f.loc} {k}") if ok else r.fail(f.fq + ":" + k, Finding("C10.R4", f.fq, k, f"OpDef.verify no longer performs the `{k}` check", f.loc)))
+    from ..paths import enum_paths, loops_of
+
+    fpaths = enum_paths(f.node)
+    loops = loops_of(fpaths)
+    checks: dict[str, str | None] = {}
+    for kind, optcls in (("properties", "OptPropertyDef"), ("attributes", "OptAttributeDef")):
+        key = f"declared-{kind}"
+        lp = [l for l in loops if isinstance(l.node, ast.For) and l.riter == f"self.{kind}.items()" and isinstance(l.node.target, ast.Tuple) and len(l.node.target.elts) == 2]
+        if len(lp) != 1:
+            checks[key] = f"no loop over self.{kind}.items()"
+            continue
+        n_, d_ = (unparse(e_) for e_ in lp[0].node.target.elts)  # type: ignore[attr-defined]
+        present = f"{n_} in op.{kind}"
+        problems = []
+        seen_cases = set()
+        for pth in lp[0].body:
+            if not pth.feasible():
+                continue
+            nf = pth.nfacts()
+            pres = next((pol for t_, pol in nf if t_ in (present, f"{n_} in op.{kind}.keys()")), None)
+            opt = next((pol for t_, pol in nf if t_ == f"isinstance({d_}, {optcls})"), None)
+            ver = [k for k, e_ in enumerate(pth.effects) if isinstance(e_, ast.Expr) and isinstance(e_.value, ast.Call) and call_attr(e_.value) == "verify" and re.fullmatch(re.escape(f"{d_}.constr.verify(op.{kind}[{n_}], ") + r".+\)", pth.res(e_.value, k))]
+            rejects = pth.end == "raise"
+            if pres is True:
+                seen_cases.add("present")
+                if not ver or rejects:
+                    problems.append(f"a present {kind[:-1] if kind != 'properties' else 'property'} is not verified against its definition")
+            elif pres is False:
+                if opt is True:
+                    seen_cases.add("absent-optional")
+                    if rejects:
+                        problems.append("an absent optional entry is rejected")
+                elif opt is False:
+                    seen_cases.add("absent-required")
+                    if not rejects:
+                        problems.append("an absent non-optional entry is accepted")
+                else:
+                    problems.append(f"an absent entry is handled without testing isinstance({d_}, {optcls})")
+            else:
+                problems.append(f"a path of the loop does not test `{present}`")
+        if seen_cases != {"present", "absent-optional", "absent-required"}:
+            problems.append(f"cases handled: {sorted(seen_cases)}")
+        checks[key] = "; ".join(problems) if problems else None
+    # undeclared properties
+    lp = [l for l in loops if isinstance(l.node, ast.For) and l.riter in ("op.properties.keys()", "op.properties", "op.properties.items()")]
+    und = "no loop over the properties present on the operation"
+    for l in lp:
+        n_ = unparse(l.node.target.elts[0] if isinstance(l.node.target, ast.Tuple) else l.node.target)  # type: ignore[attr-defined]
+        bad_ = []
+        cases = set()
+        for pth in l.body:
+            if not pth.feasible():
+                continue
+            nf = pth.nfacts()
+            decl = next((pol for t_, pol in nf if t_ in (f"{n_} in self.properties", f"{n_} in self.properties.keys()")), None)
+            if decl is False:
+                cases.add("undeclared")
+                if pth.end != "raise":
+                    bad_.append("a property that the operation does not declare is accepted")
+            elif decl is True:
+                cases.add("declared")
+                if pth.end == "raise":
+                    bad_.append("a declared property is rejected")
+            else:
+                bad_.append("a path does not test membership in self.properties")
+        und = "; ".join(bad_) if bad_ else (None if "undeclared" in cases else "no rejecting path for undeclared properties")
+    checks["undeclared-properties"] = und
+    checks["constructs"] = None if all(x in t for x in ("irdl_op_verify_arg_list(op, self, VarIRConstruct.OPERAND, constraint_context)", "irdl_op_verify_arg_list(op, self, VarIRConstruct.RESULT, constraint_context)", "irdl_op_verify_regions(op, self, constraint_context)", "verify_variadic_size(op, self, VarIRConstruct.SUCCESSOR)")) else "a construct kind is not size-verified"
+    for k, why in checks.items():
+        (r.ok(f.fq + ":" + k, f"{f.loc} {k}") if why is None else r.fail(f.fq + ":" + k, Finding("C10.R4", f.fq, k, f"OpDef.verify does not perform the `{k}` check: {why}", f.loc)))
     g = idx.func(OPS, "irdl_op_verify_arg_list")
     if "verify_variadic_size(op, op_def, construct)" in unparse(g.node) and "arg_def.constr.verify(arg_types, constraint_context)" in unparse(g.node):
         r.ok(g.fq, f"{g.loc} sizes verified before each segment's constraint, sharing one constraint context")
@@ -260,6 +369,36 @@ def check_var_binding(idx: Index, rep: Report, rule_id: str = "C10.R6") -> None:
                 r.fail(v.fq, Finding(rule_id, v.fq, "binding-by-truthiness", f"`{unparse(t)}` treats a variable bound to a falsy value (empty tuple, ArrayAttr([]), IntegerAttr(0)) as unbound: a later, different occurrence re-binds it instead of being compared", v.loc))
 
 
+def check_every_def_verified(idx: Index, rep: Report) -> None:
+    """Each operand / result definition constrains its segment, the empty one included: an absent optional binds the
+    range / length variables of its constraint to () / 0, which is what rejects a non-empty linked segment."""
+    r = rep.rule("C10.R7", "irdl_op_verify_arg_list runs the constraint of every definition on its (possibly empty) range of types: no iteration skips the verify call", floor=1)
+    f = idx.func(OPS, "irdl_op_verify_arg_list")
+    cfg = CFG(f.node)
+    loops = [w for w in walk_local(f.node) if isinstance(w, ast.For) and isinstance(w.target, ast.Tuple) and len(w.target.elts) == 2]
+    if len(loops) != 1:
+        raise AnalysisError(f"{f.fq}: loop over the (name, definition) pairs not found")
+    w = loops[0]
+    dname = unparse(w.target.elts[1])
+    vcalls = [c for c in calls_in(w) if call_attr(c) == "verify" and isinstance(c.func, ast.Attribute) and unparse(c.func.value) in (f"{dname}.constr",)]
+    if not vcalls:
+        raise AnalysisError(f"{f.fq}: `{dname}.constr.verify(...)` not found in the loop")
+    head = cfg.node_of(w)
+    vn = {cfg.node_of(c) for c in vcalls}
+    starts = [m for m, lab in cfg.succ[head] if lab == "T"]
+    skip = None
+    for m in starts:
+        if m in vn:
+            continue
+        pth = cfg.path_avoiding(m, head, lambda n: n.id in vn, follow_exc=False)
+        if pth is not None:
+            skip = pth
+    if skip is None:
+        r.ok(f.fq, f"{f.loc} every iteration reaches {dname}.constr.verify (absent optionals are verified against the empty range)")
+    else:
+        r.fail(f.fq, Finding("C10.R7", f.fq, "definition-not-verified", f"an iteration of the loop over the definitions returns to the loop head without calling `{dname}.constr.verify`: " + " -> ".join(cfg.describe(skip)[-4:]) + " — the constraint of an absent optional is not run on the empty range, so a range / length variable it shares with another segment is never bound to () and the other segment can bind it to anything", f.loc))
+
+
 def check(idx: Index, rep: Report, tier: str) -> str:
     rep.run(check_size_verifiers, idx, rep)
     rep.run(check_builder, idx, rep)
@@ -267,6 +406,7 @@ def check(idx: Index, rep: Report, tier: str) -> str:
     rep.run(check_properties, idx, rep)
     rep.run(check_accessor_counters, idx, rep)
     rep.run(check_var_binding, idx, rep)
+    rep.run(check_every_def_verified, idx, rep)
     return (
         "Sibling / derivation rules over xdsl/irdl/operations.py: both segment-size verifiers consume the verified length "
         "(count, kind, sign, sum), the builder records one consistent size per definition on every path, option and construct "
